@@ -521,6 +521,9 @@ def _complete(ctx, build: FuncInfo):
             flat(e.right, before)
         elif isinstance(e, (ast.List, ast.Tuple)):
             for x in e.elts:
+                if isinstance(x, ast.Starred):
+                    flat(x.value, before)           # [a, *rest] is [a] + rest
+                    continue
                 rx = resolve(x, before)
                 parts.append(rx.value if isinstance(rx, _Resolved) else rx)
         else:
@@ -537,8 +540,16 @@ def _complete(ctx, build: FuncInfo):
     for p in parts:
         if isinstance(p, tuple):
             e = p[1]
+            recv_t = strip_opt(env.type_of(e.func.value)) if isinstance(e, ast.Call) and isinstance(e.func, ast.Attribute) else ('any',)
+            if recv_t == ('any',) and isinstance(e, ast.Call) and isinstance(e.func, ast.Attribute) and \
+                    isinstance(e.func.value, ast.Attribute):
+                # <x>.<field>: the annotated type of the field, whatever the type of x is known to be
+                cands = {prog.ann_to_type(c_.module, c_.fields[e.func.value.attr][0], c_)
+                         for c_ in prog.classes.values() if e.func.value.attr in c_.fields}
+                if len(cands) == 1:
+                    recv_t = strip_opt(next(iter(cands)))
             if isinstance(e, ast.Call) and isinstance(e.func, ast.Attribute) and e.func.attr == 'as_list' and \
-                    strip_opt(env.type_of(e.func.value)) == ('cls', 'dznpy.adv_shell.common.SupportFiles'):
+                    recv_t == ('cls', 'dznpy.adv_shell.common.SupportFiles'):
                 as_list += 1
             else:
                 run.violation('C13.complete', build.module.name, build.qualname, rets[0],
@@ -551,7 +562,9 @@ def _complete(ctx, build: FuncInfo):
             run.violation('C13.complete', build.module.name, build.qualname, rets[0],
                           f'unrecognised element of the result list: `{ast.unparse(p)[:60]}`', node=rets[0])
             return
-    ok = sorted(got) == sorted(producers) and len(producers) == 2 and as_list == 1
+    # the two listed producers are different methods that return a GeneratedContent (other helpers may return one too)
+    ok = len(got) == 2 and len(set(got)) == 2 and set(got) <= producers and as_list == 1
+    producers = set(got) & producers if ok else producers
     run.add('C13.complete', build.module.name, build.qualname, rets[0], ok,
             f'result = {sorted(got)} + SupportFiles.as_list()' if ok else
             f'result list is incomplete or duplicated: producers {sorted(producers)}, listed {sorted(got)}, '
@@ -560,8 +573,18 @@ def _complete(ctx, build: FuncInfo):
     for name in sorted(producers):
         m = b.methods[name]
         rs = [n for n in iter_own_nodes(m.node) if isinstance(n, ast.Return)]
-        ok = len(rs) == 1 and rs[0] is m.node.body[-1] and isinstance(rs[0].value, ast.Call) and \
-            getattr(rs[0].value.func, 'id', getattr(rs[0].value.func, 'attr', '')) == 'GeneratedContent'
+        def yields_content(call, depth=0) -> bool:
+            if not isinstance(call, ast.Call) or depth > 3:
+                return False
+            nm = getattr(call.func, 'id', getattr(call.func, 'attr', ''))
+            if nm == 'GeneratedContent':
+                return True
+            h = b.methods.get(nm)
+            if h is not None and prog.ann_to_type(h.module, h.node.returns, b) == ('cls', 'dznpy.text_gen.GeneratedContent'):
+                hrs = [n for n in iter_own_nodes(h.node) if isinstance(n, ast.Return)]
+                return len(hrs) == 1 and hrs[0] is h.node.body[-1] and yields_content(hrs[0].value, depth + 1)
+            return False
+        ok = len(rs) == 1 and rs[0] is m.node.body[-1] and yields_content(rs[0].value)
         run.add('C13.complete', m.module.name, m.qualname, rs[0] if rs else m.qualname, ok,
                 'single unconditional return of a GeneratedContent' if ok else
                 'may return without producing its file', node=rs[0] if rs else m.node)
